@@ -5,10 +5,13 @@
    reveal the tree it covers).  Service provider: Model/Response.v (the shared pipeline of
    C02/C04/C05, flat documents) and Model/Encrypt.v PART II (document trees: advice, nested
    and stray EncryptedData, any key set, tool policy and fault schedule).
+   The certificates of the service provider are DERIVED from its metadata (Model/EncryptMd.v over
+   Model/CertSelect.v's md_certs: key descriptors with an optional use attribute, several role
+   descriptors, several sources, first entity with the id wins): the *_md theorems put the hypothesis there.
    [idp_build] / [t_fixed := true] follow the code WITH proposed_fix/C17-1 and C17-2;
    the *_before_fix theorems keep the defects of the code without them visible. *)
-From PV Require Import Lib.Base Model.Status Model.Response Model.Encrypt
-  Proofs.Response_lemmas Proofs.EncryptSP_lemmas Proofs.Encrypt_lemmas Proofs.EncryptTree_lemmas Proofs.EncryptLoop_lemmas.
+From PV Require Import Lib.Base Model.Status Model.Response Model.Encrypt Model.CertSelect Model.EncryptMd
+  Proofs.Response_lemmas Proofs.EncryptSP_lemmas Proofs.Encrypt_lemmas Proofs.EncryptMd_lemmas Proofs.EncryptTree_lemmas Proofs.EncryptLoop_lemmas.
 Open Scope Z_scope.
 
 (* ===================== identity provider ===================== *)
@@ -70,6 +73,83 @@ Proof.
   intros g i t k0 H. split; intros A B; [exact (verified_cert_used true g i t k0 H A B)|exact (verified_advice_cert_used true g i t k0 H A B)].
 Qed.
 Print Assumptions C17_verified_certificate_used.
+
+(* ===================== identity provider, hypothesis on the SP's METADATA ===================== *)
+
+(* what has_encrypt_cert_in_metadata / _encrypt_assertion / _authn_response find for the SP:
+   exactly the certificates of the key descriptors of THAT entity (the first entry the store serves for the id,
+   any role descriptor) whose use is encryption OR ABSENT — never a signing-only descriptor, never another entity's *)
+Theorem C17_metadata_certificates :
+  forall m sp k u, In (k, u) (md_enc_certs m sp) <->
+    (exists e r kd, find_entity m sp = Some e /\ In r e /\ In kd r /\
+                    (kd_use kd = None \/ kd_use kd = Some ENCRYPTION) /\ In k (kd_certs kd)) /\ u = negb (k =? 0)%N.
+Proof. exact md_enc_certs_spec. Qed.
+Print Assumptions C17_metadata_certificates.
+
+(* C17_confidential with the hypothesis "the SP's metadata has a key descriptor whose use is encryption or absent":
+   a use-less key (hand-written / third-party metadata) obliges the IdP exactly like use=encryption *)
+Theorem C17_confidential_md :
+  forall g m sp i1 i2, g_encrypt_assertion g = true -> sp_has_enc_key m sp ->
+    vis (idp_build_md g m sp i1) = vis (idp_build_md g m sp i2).
+Proof. exact confidential_md. Qed.
+Print Assumptions C17_confidential_md.
+
+Theorem C17_confidential_advice_md :
+  forall g m sp n a1 a2, g_pefim g = true -> sp_has_enc_key m sp ->
+    vis (idp_build_md g m sp {| i_name_id := n; i_attrs := a1 |}) = vis (idp_build_md g m sp {| i_name_id := n; i_attrs := a2 |}).
+Proof. exact confidential_advice_md. Qed.
+Print Assumptions C17_confidential_advice_md.
+
+Theorem C17_no_identity_string_md :
+  forall g m sp i out s, g_encrypt_assertion g = true -> sp_has_enc_key m sp -> idp_build_md g m sp i = Ok out ->
+    (forall out0, idp_build_md g m sp no_ident = Ok out0 -> ~ In s (visible out0)) -> ~ In s (visible out).
+Proof. exact no_occurrence_md. Qed.
+Print Assumptions C17_no_identity_string_md.
+
+(* every ciphertext opens under a certificate handed in, or under a real certificate that the SP's OWN entity
+   offers in a key descriptor with use encryption or absent *)
+Theorem C17_opens_only_under_sp_key_md :
+  forall g m sp i t k, idp_build_md g m sp i = Ok t -> In k (enc_keys t) ->
+    g_cert_assertion g = CGiven k true \/ g_cert_advice g = CGiven k true \/ (sp_enc_cert m sp k /\ k <> 0%N).
+Proof. exact enc_keys_md. Qed.
+Print Assumptions C17_opens_only_under_sp_key_md.
+
+(* only a LATER certificate is usable (garbage first, signing descriptors first, another role descriptor,
+   a second X509Data ...): a response is emitted and its outermost ciphertext is for the first usable one *)
+Theorem C17_later_certificate_used :
+  forall g m sp i k0, g_encrypt_assertion g = true -> g_cert_assertion g = CNone -> g_cert_advice g = CNone ->
+    g_verify_assertion g = None -> g_verify_advice g = None ->
+    g_self_contained g || g_pefim g || g_sign_assertion g = true ->
+    sp_enc_cert m sp k0 -> k0 <> 0%N ->
+    exists t k, idp_build_md g m sp i = Ok t /\ hd_error (enc_keys t) = Some k /\
+                first_usable (md_enc_certs m sp) = Some k /\ sp_enc_cert m sp k /\ k <> 0%N.
+Proof. exact later_cert_used_md. Qed.
+Print Assumptions C17_later_certificate_used.
+
+(* signing-only metadata (no key descriptor for encryption) and no certificate handed in: encryption is
+   silently not done (observed, outside the statement) — but then NOTHING in the message claims to be
+   encrypted: no <EncryptedAssertion>, no EncryptedData, at any depth *)
+Theorem C17_no_certificate_nothing_claims_encrypted :
+  forall g m sp i t, (forall k, ~ sp_enc_cert m sp k) -> g_cert_assertion g = CNone -> g_cert_advice g = CNone ->
+    idp_build_md g m sp i = Ok t -> claims_encrypted t = false.
+Proof. exact nothing_claims_encrypted_md. Qed.
+Print Assumptions C17_no_certificate_nothing_claims_encrypted.
+
+(* hypotheses satisfiable: use-less key after a signing key (another entity first) => encrypted for it, nothing of
+   the identity readable; use-less key under another role only; garbage first; signing only => clear and nothing
+   claims otherwise; the same entity in two sources => the first one served decides *)
+Example C17_metadata_witness :
+  (sp_has_enc_key md_useless SPID /\ md_enc_certs md_useless SPID = [(1%N, true)] /\
+   exists out, idp_build_md g_enc md_useless SPID ident0 = Ok out /\ enc_keys out = [1%N] /\
+               ~ In (E "subject-7") (visible out) /\ ~ In (E "anna@example.org") (visible out)) /\
+  (md_enc_certs md_other_role SPID = [(1%N, true)]) /\
+  (md_enc_certs md_later SPID = [(0%N, false); (1%N, true)] /\
+   exists out, idp_build_md g_enc md_later SPID ident0 = Ok out /\ enc_keys out = [1%N]) /\
+  ((forall k, ~ sp_enc_cert md_signing_only SPID k) /\
+   exists out, idp_build_md g_enc md_signing_only SPID ident0 = Ok out /\ claims_encrypted out = false /\ In (E "subject-7") (visible out)) /\
+  (md_enc_certs md_two_sources SPID = []).
+Proof. exact md_witness. Qed.
+Print Assumptions C17_metadata_witness.
 
 (* the code before proposed_fix/C17-1: PEFIM + sign_assertion without sign_response / encrypt_assertion
    returned before anything was encrypted — the attribute assertion went out in clear *)
